@@ -282,6 +282,10 @@ class Verifier:
                 # nothing has been spawned when the actors are constructed
                 st.ghost[gname + '.cnt'] = EMPTY_CNT
                 st.ghost[gname + '.n'] = z3.IntVal(0)
+        if fi.node.name == '__init__':
+            # ghost counters of an actor start at zero with the actor (nothing logged, nothing admitted)
+            for gname, sort in getattr(self.spec, 'zero_at_init', {}).get(fi.cls, []):
+                st.ghost[gname] = z3.RealVal(0) if sort == 'real' else z3.IntVal(0)
         if frm == -1:
             # this process was pending (spawned, not started) until now: S3 bookkeeping
             for qual, pred, gname, elem in self.spec.spawn_ghosts:
